@@ -129,6 +129,40 @@ pub fn oracle_debuginfo(w: &mut Worker, case: &Case) -> Vec<Violation> {
             w.stats.probe_n("debuginfo:msg-end-marker-read-as-instruction(tolerated)", n);
         }
     }
+    // positional part: ANM scripts and old-ECL subs are exported with their index in the output
+    // file, and the reader lists scripts in file order (ECL: timelines first, then subs), so the
+    // script that the debug info calls number i must be the i-th one the reader finds
+    {
+        let n_timelines = scripts.iter().filter(|sc| sc["exported-as"]["type"] == "scl-script").count();
+        let mut seen: Vec<usize> = vec![];
+        for (j, sc) in scripts.iter().enumerate() {
+            let ty = sc["exported-as"]["type"].as_str().unwrap_or("");
+            let pos = match (ty, sc["exported-as"]["index"].as_u64()) {
+                ("anm-script", Some(i)) => Some(i as usize),
+                ("scl-script", Some(i)) => Some(i as usize),
+                ("olde-ecl-sub", Some(i)) => Some(n_timelines + i as usize),
+                _ => None,
+            };
+            if let Some(pos) = pos {
+                if seen.contains(&pos) {
+                    v.push(Violation { class: "debuginfo:script-index".into(), detail: format!("two exported scripts claim {} index {}", ty, sc["exported-as"]["index"]) });
+                    break;
+                }
+                seen.push(pos);
+                match from_reader.get(pos) {
+                    Some(r) if *r == a[j] => {}
+                    Some(r) => {
+                        v.push(Violation { class: "debuginfo:script-index".into(), detail: format!("debug info: {} #{} ({:?}) has offsets {:?} end {}; script #{} in the file has {:?} end {}", ty, sc["exported-as"]["index"], sc.get("name"), a[j].0, a[j].1, pos, r.0, r.1) });
+                        break;
+                    }
+                    None => {}
+                }
+            }
+        }
+        if !seen.is_empty() && v.is_empty() {
+            w.stats.probe("debuginfo:script-indices-cross-checked");
+        }
+    }
     a.sort();
     from_reader.sort();
     if a != from_reader {
